@@ -3,7 +3,13 @@
 // fmt). Flag* types must be reported by the rule, Pass* types must not.
 package eap
 
-import "fmt"
+import (
+	"errors"
+	"fmt"
+	"io"
+
+	pkgerrors "github.com/pkg/errors"
+)
 
 type FlagSkip struct{ Data []byte }
 
@@ -48,3 +54,48 @@ func (t FlagFmt) String() string { return fmt.Sprintf("type %v", t) }
 type PassFmt uint8
 
 func (t PassFmt) String() string { return fmt.Sprintf("type %d", t) }
+
+// ---- io.ReadFull: success only behind a test that the read was complete ----
+
+func FlagRead(r io.Reader) ([]byte, error) {
+	buf := make([]byte, 2)
+	for i := 0; i < 1; i++ {
+		_, err := io.ReadFull(r, buf)
+		if err != nil {
+			if err == io.EOF {
+				break // leaves the loop only: the half-read buffer is returned as a success
+			}
+			return nil, err
+		}
+	}
+	return buf, nil
+}
+
+func PassRead(r io.Reader) ([]byte, error) {
+	buf := make([]byte, 2)
+	n, err := io.ReadFull(r, buf)
+	if n != 2 {
+		return nil, errors.New("short")
+	}
+	if err != nil {
+		return nil, err
+	}
+	return buf, nil
+}
+
+// ---- a wrapper applied to an error that is nil there ----
+
+func FlagWrap(n int) error {
+	var err error
+	if n > 3 {
+		return pkgerrors.Wrapf(err, "too long: %d", n)
+	}
+	return nil
+}
+
+func PassWrap(n int, f func() error) error {
+	if err := f(); err != nil {
+		return pkgerrors.Wrapf(err, "step %d", n)
+	}
+	return nil
+}
